@@ -73,6 +73,10 @@ claim("C13", "static analysis: cross-language wire-schema comparison (shape of t
       "Decides: the configuration block packed for HTTP and SMB listeners has exactly the field kinds, order, loops and optional parts that the Demon's start-up reader consumes (both sides re-read from source on every run); each of the twelve option fields is packed at the ordinal the Demon reads it from and its variable is assigned only under its own option; no variable mixes constants of two enumerations; every Atoi/ParseWorkingHours error makes PatchConfig fail and Build return false; working hours are packed in disjoint masked fields. Known finding (printed as KNOWN-FINDING): operator build strings reach `sh -c`. Not decided: value fidelity of strings (UTF-16), interface address resolution, the compiler invocation itself, host:port splitting of IPv6 hosts.",
       TRUST + " The C reader is a purpose-built scanner for DemonConfig() (calls, for/if nesting, #ifdef TRANSPORT_*), not a C front end.", "DESIGN.md §3 R14-R16, §4 C13")
 
+claim("C14", "static analysis: well-formedness rules over the struct tags of every type reachable from profile.HavocConfig (go/types), nil-test dominance for optional profile blocks at all consumers (with the SetProfile normalisation recognised), discarded error/diagnostics rule over the CHA-reachable decode path",
+      "Decides: every exported field of the profile schema has a yaotl tag of a kind gohcl accepts (others panic at load), names are unique per struct, block/label/attribute fields have decodable types; every dereference of a pointer-typed profile block anywhere in the module is dominated by a nil test of the same path, or the block is replaced by an empty struct in SetProfile when omitted; in the functions of hclsimple/gohcl/hclsyntax/profile reachable from DecodeFile no error or hcl.Diagnostics result is bound to _ or dropped (three upstream idioms listed with their reason). Not decided: the decode round trip over the value space, diagnostics' text and ranges, heredoc/template spelling equivalences.",
+      TRUST, "DESIGN.md §3 R17/R18, §4 C14")
+
 for i in range(1, 21):
     pid = "C%02d" % i
     if pid not in CLAIMS and pid not in NA:
